@@ -14,6 +14,8 @@
 typedef long opq_t;            /* opaque handle (class 3) */
 typedef long it_t;             /* const char iterator = offset into g_buf */
 typedef int ec_t;              /* boost::system::error_code as an integer */
+/* moving out of a type-erased handler leaves it empty (assumed Asio contract) */
+static inline opq_t opq_take(opq_t *h) { opq_t r = *h; *h = 0; return r; }
 
 #ifdef VERIF_CBMC
 /* a limit of the MODEL (not of the library): reaching it makes the run UNDECIDED */
@@ -227,6 +229,13 @@ static inline long it_distance(it_t a, it_t b) { return b - a; }
  * Growth beyond VEC_CAP elements is a limit of the MODEL (run UNDECIDED), not
  * of the library.  Operations that shift elements have loops bounded by the
  * length (proved with the harness' capacity and unwinding assertions). */
+#if defined(VEC_CAP_Q) && !defined(VEC_CAP)
+#ifdef VERIF_TIER_THOROUGH
+#define VEC_CAP VEC_CAP_T
+#else
+#define VEC_CAP VEC_CAP_Q
+#endif
+#endif
 #ifndef VEC_CAP
 #define VEC_CAP 8
 #endif
@@ -260,6 +269,22 @@ static inline long it_distance(it_t a, it_t b) { return b - a; }
     MODEL_PRE(v->data <= it && it < v->data + v->n, "vector::erase requires a dereferenceable iterator of this vector"); \
     for (T *k = it; k + 1 < v->data + v->n; k++) *k = *(k + 1); \
     v->n--; return it; } \
+  /* move construction / assignment from std::move(v): the source is left empty (libstdc++) */ \
+  static inline NAME NAME##_take(NAME *v) { NAME r = *v; v->data = (T *)VEC_ALLOC(VEC_CAP * sizeof(T)); v->n = 0; return r; } \
+  static inline T *NAME##_erase_range(NAME *v, T *first, T *last) { \
+    MODEL_PRE(v->n == 0 ? (first == v->data && last == v->data) : (v->data <= first && first <= last && last <= v->data + v->n), "vector::erase(first,last) requires a valid range of this vector"); \
+    unsigned long cut = (unsigned long)(last - first); \
+    for (T *k = first; v->n != 0 && k + cut < v->data + v->n; k++) *k = *(k + cut); \
+    v->n -= cut; return first; } \
+  static inline T *NAME##_insert_range(NAME *v, T *it, T *first, T *last) { \
+    unsigned long cnt = (unsigned long)(last - first); \
+    MODEL_PRE(v->n == 0 ? it == v->data : (v->data <= it && it <= v->data + v->n), "vector::insert requires an iterator of this vector"); \
+    MODEL_LIMIT(v->n + cnt <= VEC_CAP, "vector capacity of the model"); \
+    unsigned long at = v->n == 0 ? 0 : (unsigned long)(it - v->data); \
+    if (v->data == 0) v->data = (T *)VEC_ALLOC(VEC_CAP * sizeof(T)); \
+    for (unsigned long k = v->n; k > at; k--) v->data[k - 1 + cnt] = v->data[k - 1]; \
+    for (unsigned long k = 0; k < cnt; k++) v->data[at + k] = first[k]; \
+    v->n += cnt; return v->data + at; } \
   static inline T *NAME##_insert(NAME *v, T *it, T x) { \
     MODEL_PRE(v->data <= it && it <= v->data + v->n, "vector::insert requires an iterator of this vector"); \
     MODEL_LIMIT(v->n < VEC_CAP, "vector capacity of the model"); \
@@ -300,6 +325,26 @@ static inline long it_distance(it_t a, it_t b) { return b - a; }
   static _Bool NAME(T *first, T *last, CLO *pred) { \
     for (; first != last; ++first) if (PRED(pred, first)) return 1; \
     return 0; }
+
+/* std::find_if / std::remove_if over an element-pointer range with a closure */
+#define DEF_FIND_IF_PTR(NAME, T, CLO, PRED) \
+  static T *NAME(T *first, T *last, CLO *pred) { \
+    for (; first != last; ++first) if (PRED(pred, first)) return first; \
+    return last; }
+#define DEF_REMOVE_IF_PTR(NAME, T, CLO, PRED) \
+  static T *NAME(T *first, T *last, CLO *pred) { \
+    T *result = first; \
+    for (; first != last; ++first) if (!PRED(pred, first)) { if (result != first) *result = *first; ++result; } \
+    return result; }
+/* std::stable_sort(first, last) with operator<: insertion sort (stable).  Its
+ * precondition -- operator< is a strict weak order on the elements present --
+ * is the lemma of unit leaf (lemma_serial_order). */
+#define DEF_STABLE_SORT_PTR(NAME, T, LESS) \
+  static void NAME(T *first, T *last) { \
+    for (T *i = first; i != last && i + 1 != last; ++i) { \
+      T *j = i + 1; T x = *j; \
+      while (j != first && LESS(&x, j - 1)) { *j = *(j - 1); --j; } \
+      *j = x; } }
 
 #endif
 
